@@ -281,14 +281,21 @@ def gen_cases(tier, rnd, prop, budget):
 def large_n_oracles(prop, tier, rnd, res, budget):
     """n = 9 (thorough: 9, 10): coalition ids above 255. The model driver is not run here (its relation table is
     O(8^n)); the property's own oracle is applied to the real computers, which is what finds a failing input."""
-    for n in ((9,) if tier == "quick" else (9, 10)):
+    # every player count from 9 to 12 (the cached computer's structure has 4^n entries: 134 MB at n = 12), not a sample: a code path
+    # that starts at some n has nowhere to hide; one cost game (negative values: v(S) = |S|² − 20|S|) per player count as well
+    for n in (9, 10, 11, 12):
         N = 2 ** n
-        for gi in range(2 if tier == "quick" else 6):
+        for gi in range((2 if n <= 10 else 1) if tier == "quick" else (6 if n <= 10 else 3)):
             if budget.left() < 5:
                 res.notes.append("large-n oracles: budget exhausted")
                 return
-            samg = gi % 2 == 0 or prop == "C04"
-            v = G.sam_game(n, rnd) if samg else G.sa_game(n, rnd, kind="int", neg_singletons=True)
+            samg = (gi % 2 == 0 and n <= 10) or prop == "C04"
+            if samg:
+                v = G.sam_game(n, rnd)
+            elif n >= 11:
+                v = [Fraction(G.popcount(c) ** 2 - 20 * G.popcount(c)) for c in range(N)]       # convex, all values negative
+            else:
+                v = G.sa_game(n, rnd, kind="int", neg_singletons=True)
             K = G.knowledge_random(n, rnd, p=0.05)
             comps = ["sam:1"] if prop == "C04" else (["sa", "sac"] if prop in ("C01", "C02", "C03") else ["sac", "sam:1" if samg else "sac"])
             outs = {}
